@@ -124,6 +124,29 @@ CHECKS = {
         "DESIGN.md §4 C12",
         "A",
     ),
+    "C13": (
+        "model_checking",
+        "complete sweep of the assert selector table and of every handler over operand grids (concrete and symbolic operands), plus bounded-exhaustive behavioural programs (failing call at call depth 0..3, every single injected solver `unknown`) on the real SEVM.run compared with a reference EVM carrying Foundry's assert/assume semantics",
+        "(1) halmos.assertions.assert_cheatcode_handler must be exactly the forge-std grammar assert{True,False,Eq,NotEq,Lt,Gt,Le,Ge} x {bool,uint256,int256,address,bytes32,string,bytes and their arrays} x optional message, each key = keccak of its signature (76 entries). "
+        "(2) For every selector and every operand tuple of a grid (10 boundary words with both signs squared; arrays of length 0..2 incl. different lengths; bytes/strings of length 0,1,32,33 incl. equal prefixes), with concrete calldata and with the operands replaced by symbols, "
+        "the condition built by the handler is grounded and must be true exactly when the stated relation holds (signedness, element-wise and length-sensitive equality). (3) Generated programs call every word-typed vm.assert* / vm.assume with symbolic operands from a frame at call "
+        "depth 0..3 whose callers ignore the success flag; on the real SEVM.run, for every input of the 100-point grid a FailCheatcode path admits the input iff the relation is false (also with each single branching-solver answer replaced by `unknown`), continuing paths agree with the "
+        "reference where the relation holds, and after vm.assume(c) no path admits an input violating c.",
+        "Trusted: mc/refcheats.py (assert/assume semantics and selector grammar), mc/refevm.py, mc/symeval.py; grounding of closed terms uses z3.substitute+simplify (evaluation only). halmos lets the continuing path also admit failing inputs (the sibling path reports the failure): not asserted against.",
+        "DESIGN.md §4 C13",
+        "A",
+    ),
+    "C14": (
+        "model_checking",
+        "bounded-exhaustive enumeration of prank-family operation sequences, state-cheatcode cases and fresh-symbol requests (all widths), each run by the real SEVM.run and compared for every input / tape value with a reference EVM carrying Foundry's cheatcode state machine",
+        "Prank: every sequence of length <= 3 (thorough 4) over prank(a), prank(a,o), startPrank(a), startPrank(a,o), stopPrank(), prank(x) with a symbolic address, CALL/STATICCALL to an observer that calls a second observer, CREATE of an observer, an intervening cheatcode call and a helper frame issuing its own "
+        "prank; every observed (msg.sender, tx.origin) pair - in the callee, in the callee's callee and in constructors - must equal the reference state machine, and halmos may stop with an internal error only where Foundry rejects the sequence (prank over an active prank). State: deal, store/load, etch, warp, roll, fee, chainId, "
+        "coinbase, difficulty with concrete and symbolic arguments, issued from the root or a nested frame, then every relevant opcode read in the same and in another frame on the targeted and on another account. Fresh symbols: createUint/createInt/randomUint/randomInt for bit widths 1..256 (quick: 17 boundary widths), "
+        "bytes/string sizes {0,1,31,32,33,65}, all fixed-type creators, min/max pairs over boundary words: symbol width, zero/sign extension, range constraints, ABI layout and pairwise independence checked against an input-tape reference for every tape value of a grid.",
+        "Trusted: mc/refcheats.py (Foundry prank rules, cheatcode effects, tape semantics of fresh values), mc/refevm.py, mc/symeval.py. DELEGATECALL under prank, console calls, balances above 2^128 and cheatcodes issued in frames that later revert are outside the alphabet.",
+        "DESIGN.md §4 C14",
+        "A",
+    ),
     "C17": (
         "model_checking",
         "stateless, deviation/preemption-bounded exploration (CHESS style) of the real halmos/processes.py and solve.solve_low_level under a cooperative scheduler with simulated subprocesses; invariants evaluated on every complete schedule",
